@@ -5,7 +5,8 @@ from . import common, life
 
 COMMON_ASSUMPTIONS = [
     "pi_id projection: objects are compared through SHA-256 of canonical bytes (frames: columns, dtypes, index incl. tz and freq, values; "
-    "documents: parsed JSON value with numbers normalised, so 12 and 12.0 are the same document)",
+    "documents: parsed JSON value with numbers normalised, so 12 and 12.0 are the same document; stored warnings are compared by "
+    "qualified name and data, not by their free-text description, which embeds formatted numbers)",
     "the abstract attributes of a data object (family, timezone, disqualification names, calendar coverage) are measured on the real object "
     "when it is constructed and bound from the trace; whether they are the right ones is C10's question",
     "verdicts are TLC's evaluation of LifecycleTrace.tla clauses; after a rejected step validation continues with the abstract state the P-layer prescribes",
